@@ -154,21 +154,62 @@ def run(chk):
     _whole_solve(chk, src)
     # ---- (5) matching part wiring ------------------------------------------------------------------------------------------
     fm = src.func("eko.runner.parts.match")
-    env = Env(fm.module)
-    hq = 5
-    rec = Obj(mat)
-    rec.attrs.update(scale=dag.sym("mu2"), hq=hq, inverse=True)
-    env.vars["recipe"] = rec
-    idx = nfarg = None
-    for n in ast.walk(fm.node):
-        if isinstance(n, ast.Subscript) and "squared_ratios" in ast.unparse(n.value):
-            idx = pe.eval(n.slice, env)
-        if isinstance(n, ast.Call) and ast.unparse(n.func).endswith("OperatorMatrixElement"):
-            nfarg = pe.eval(n.args[2], env)
-            inv_ok = ast.unparse(n.args[4]) == "recipe.inverse" and ast.unparse(n.args[3]) == "recipe.scale"
-    chk.decide(idx == hq - 4 and nfarg == hq - 1 and inv_ok, "matching-part-wiring", fm.qname,
-               f"for hq={hq}: matching ratio index {idx} (required {hq - 4}), light flavours {nfarg} (required {hq - 1}), scale/inverse taken "
-               f"from the recipe: {inv_ok}", where=fm.where)
+    from ..pe import Opaque, named_arguments
+
+    OME = "eko.evolution_operator.operator_matrix_element.OperatorMatrixElement"
+    n_wire = 0
+    for hq, inverse, scheme in itertools.product((4, 5, 6), (True, False), ("MSBAR", "POLE")):
+        pm = PE(src)
+        schemes = pm.enum_members(src.cls("eko.quantities.heavy_quarks.QuarkMassScheme"))
+        built, split = [], []
+
+        class Elem(Opaque):
+            op_members = "MEMBERS"
+
+            def compute(self):
+                return None
+
+        class Map(Opaque):
+            def to_flavor_basis_tensor(self, qed=False):
+                return ("RES", "ERR")
+
+        def mk_ome(p_, a, k):
+            built.append(named_arguments(k))
+            e = Elem()
+            e.nf = built[-1].get("nf")
+            return e
+
+        pm.overrides[OME] = mk_ome
+        pm.overrides["eko.runner.parts._matching_configs"] = lambda p_, a, k: "CONFIGS"
+        pm.overrides["eko.runner.parts._managers"] = lambda p_, a, k: "MANAGERS"
+        pm.overrides["eko.evolution_operator.matching_condition.MatchingCondition.split_ad_to_evol_map"] = \
+            lambda p_, a, k: split.append(named_arguments(k)) or Map()
+        ks = [dag.sym("kc2"), dag.sym("kb2"), dag.sym("kt2")]
+        eko_ = Opaque()
+        eko_.theory_card = Opaque()
+        eko_.theory_card.heavy = Opaque()
+        eko_.theory_card.heavy.squared_ratios = list(ks)
+        eko_.theory_card.heavy.masses_scheme = schemes[scheme]
+        eko_.theory_card.order = (3, 0)
+        rec = Obj(mat)
+        rec.attrs.update(scale=dag.sym("mu2"), hq=hq, inverse=inverse)
+        try:
+            pm.call(fm.qname, [eko_, rec])
+        except PERaise as e:
+            built.append({"raises": str(e)})
+        b = built[0] if len(built) == 1 else {}
+        sp = split[0] if len(split) == 1 else {}
+        n_wire += 1
+        ok = b.get("nf") == hq - 1 and b.get("q2") is dag.sym("mu2") and b.get("is_backward") is inverse \
+            and b.get("L") is not None and dag.tonode(b.get("L")) is dag.fn("log", ks[hq - 4]) and b.get("is_msbar") is (scheme == "MSBAR") \
+            and sp.get("nf") == hq - 1 and sp.get("q2_thr") is dag.sym("mu2")
+        show = {k_: (dag.short(v) if isinstance(v, dag.Node) else v) for k_, v in b.items() if k_ not in ("config", "managers")}
+        chk.decide(ok, "matching-part-wiring", fm.qname,
+                   f"matching at the threshold of quark {hq}, inverse={inverse}, scheme {scheme}: the matrix element is built with {show} and "
+                   f"blown up with {({k_: (dag.short(v) if isinstance(v, dag.Node) else v) for k_, v in sp.items() if k_ != 'ome_members'})}; required "
+                   f"{hq - 1} light flavours, the recipe's scale and direction, L = log of matching ratio {hq - 4}, is_msbar={scheme == 'MSBAR'}",
+                   where=fm.where, instance=f"{hq},{inverse},{scheme}", how="PE with recording OperatorMatrixElement")
+    chk.floor("matching wiring cases", n_wire, 12)
     chk.note(orderings=n_cases, files=["src/eko/runner/managed.py", "src/eko/runner/operators.py", "src/eko/runner/recipes.py",
                                        "src/eko/runner/parts.py", "src/eko/io/items.py"])
     chk.explanation = "Product formula and order of join, recipe/path correspondence (exhaustive), routing and once-only computation."
